@@ -35,9 +35,13 @@ FutexWaitOk(e) ==
     ELSE IF e.sc = "woken" THEN e.res \in {0, EAGAIN}
     ELSE IF e.timeout THEN e.res \in {ETIMEDOUT, 0, EINTR}
     ELSE e.res \in {0, EINTR}
+\* (if the driver could not see every waiter parked in futex(2) the scenario is inconclusive:
+\*  then only the upper bound is demanded)
 FutexWakeOk(e) ==
-    /\ e.res = Min(e.n, e.parked)
-    /\ (e.sc = "parked" => (e.all_parked /\ e.returned = e.res))
+    IF e.sc = "parked" /\ ~e.all_parked
+    THEN e.res <= Min(e.n, e.parked)
+    ELSE /\ e.res = Min(e.n, e.parked)
+         /\ (e.sc = "parked" => e.returned = e.res)
 
 Step ==
     /\ l <= Len(Rec)
